@@ -1,6 +1,7 @@
 package checks
 
 import (
+	"strings"
 	"time"
 
 	"verif.test/mc/explore"
@@ -45,6 +46,30 @@ func init() {
 		Assumptions: []string{
 			"a generated function drawing more than 100000 random numbers in one call does not terminate",
 			"Int31 / Float64 answer from a 3-value alphabet",
+		},
+	})
+}
+
+func init() {
+	registerBatch(&BatchCheck{
+		ID: "C03", Mode: "c03",
+		Families: []*ProgCheck{{Family: "F-types", Synth: typesSupported, Bound: map[string]int{"quick": 1, "thorough": 2}}},
+		Targets:  []string{prog.TGounions, prog.TTS},
+		Keep: func(p *prog.Program) bool {
+			// a field tagged gomacro:"ignore" is left out of the TypeScript on purpose although Go emits it
+			for _, f := range p.Features {
+				if strings.Contains(f, `gomacro:\"ignore\"`) || strings.Contains(f, `gomacro:"ignore"`) {
+					return false
+				}
+			}
+			return true
+		},
+		Budget:   sharedBudget(2, 3),
+		Deadline: map[string]time.Duration{"quick": 8 * time.Minute, "thorough": 50 * time.Minute},
+		Rule:     "programs of F-types (supported forms; the TypeScript generator refuses pointers) compiled with their union wrappers; the TypeScript output is parsed by tsparse (well-formed, every name declared exactly once) and every document json.Marshal produces for every value of every analysed type within the shared deviation budget must inhabit the declaration of its type; non-trivial = at least one document was checked",
+		Assumptions: []string{
+			"tsparse accepts exactly the TypeScript subset the generator can emit; a text it rejects is reported as not valid TypeScript (no TypeScript compiler exists offline)",
+			"inhabitation is closed-world: exact property sets, primitive kinds, null only where the type admits it, tuple lengths, literal sets of the `as const` objects, Kind/Data alternatives",
 		},
 	})
 }
